@@ -476,6 +476,17 @@ class Program:
                         out.extend(self.resolve_exc_expr(b[1].module, v, _depth + 1))
                 if out:
                     return list(dict.fromkeys(out))
+        if isinstance(expr, ast.Attribute) and isinstance(expr.value, ast.Name) and expr.value.id in ("self", "cls") and _depth < 3:
+            # raise self._make_error(...): what the methods of that name (any class of the module) return
+            out = []
+            for f in self.functions:
+                if f.cls is not None and f.module is mod and f.name == expr.attr and not f.is_lambda:
+                    for r in ast.walk(f.node):
+                        if isinstance(r, ast.Return) and r.value is not None:
+                            v = r.value.func if isinstance(r.value, ast.Call) else r.value
+                            out.extend(self.resolve_exc_expr(f.module, v, _depth + 1))
+            if out:
+                return list(dict.fromkeys(out))
         n = self.ext_name(mod, expr)
         if n:
             return [self.ext_class(n)]
